@@ -332,6 +332,7 @@ func init() {
 	})
 	M("DB", "Update", func(fr *frame, args []value) value {
 		txnPoint(fr)
+		commitPoint(fr)
 		return runIn(fr, db(args[0]), true, args[1])
 	})
 	M("DB", "GetSequence", func(fr *frame, args []value) value {
@@ -429,6 +430,7 @@ func init() {
 		return setDel(fr, txn(args[0]), keyBytes(args[1]), nil, true)
 	})
 	M("Txn", "Commit", func(fr *frame, args []value) value {
+		commitPoint(fr)
 		t := txn(args[0])
 		if t.discarded {
 			return badgerErr(fr.i, "ErrDiscardedTxn")
